@@ -349,49 +349,94 @@ func checkReaderDiscipline(c *Ctx, p *packages.Package) {
 		}
 	}
 	c.Check("R19.4", "reader: a latched error is returned before anything is read", token.NoPos, sticky, "next() does not start with `if i.err != nil { return 0, i.err }`")
-	// (b) io.EOF is latched only when the byte under forward is the sentinel, in the branch that excludes the half boundaries
-	eofOK := false
+	// (b) where io.EOF is latched: the guard (an if condition, or a case of a switch) must not read a data byte, and in a chain
+	// that first tests the half boundaries it is not one of the boundary branches
+	eofFound, eofOK, eofUndecided := false, false, false
 	eofByValue := ""
-	ast.Inspect(nextB.Body, func(n ast.Node) bool {
-		ifs, ok := n.(*ast.IfStmt)
-		if !ok {
+	isEOFAssign := func(n ast.Node) bool {
+		found := false
+		ast.Inspect(n, func(m ast.Node) bool {
+			if as, ok := m.(*ast.AssignStmt); ok && len(as.Rhs) == 1 {
+				if o := objOf(info, as.Rhs[0]); o != nil && o.Pkg() != nil && o.Pkg().Path() == "io" && o.Name() == "EOF" {
+					found = true
+				}
+			}
 			return true
-		}
-		// walk the else-if chain
-		depth := 0
-		for cur := ifs; cur != nil; depth++ {
-			assignsEOF := false
-			ast.Inspect(cur.Body, func(m ast.Node) bool {
-				if as, ok := m.(*ast.AssignStmt); ok && len(as.Rhs) == 1 {
-					if o := objOf(info, as.Rhs[0]); o != nil && o.Pkg() != nil && o.Pkg().Path() == "io" && o.Name() == "EOF" {
-						assignsEOF = true
+		})
+		return found
+	}
+	readsByte := func(e ast.Expr) bool {
+		reads := false
+		ast.Inspect(e, func(m ast.Node) bool {
+			if ix, ok := m.(*ast.IndexExpr); ok {
+				if t, ok := info.TypeOf(ix.X).Underlying().(*types.Slice); ok {
+					if b, ok := t.Elem().Underlying().(*types.Basic); ok && b.Kind() == types.Uint8 {
+						reads = true
 					}
 				}
-				return true
-			})
-			if assignsEOF && depth >= 2 {
-				eofOK = true
-				// the decision must not read a data byte: every byte value, 0x00 included, can occur in the input
-				ast.Inspect(cur.Cond, func(m ast.Node) bool {
-					if ix, ok := m.(*ast.IndexExpr); ok {
-						if t, ok := info.TypeOf(ix.X).Underlying().(*types.Slice); ok {
-							if b, ok := t.Elem().Underlying().(*types.Basic); ok && b.Kind() == types.Uint8 {
-								eofByValue = types.ExprString(cur.Cond)
-							}
-						}
-					}
-					return true
-				})
 			}
-			next, _ := cur.Else.(*ast.IfStmt)
-			cur = next
+			return true
+		})
+		return reads
+	}
+	ast.Inspect(nextB.Body, func(n ast.Node) bool {
+		switch x := n.(type) {
+		case *ast.IfStmt:
+			depth := 0
+			for cur := x; cur != nil; depth++ {
+				if isEOFAssign(cur.Body) {
+					eofFound = true
+					if readsByte(cur.Cond) {
+						eofByValue = types.ExprString(cur.Cond)
+					}
+					if depth >= 2 {
+						eofOK = true
+					}
+				}
+				next, _ := cur.Else.(*ast.IfStmt)
+				cur = next
+			}
+			return false
+		case *ast.SwitchStmt:
+			for k, cc := range x.Body.List {
+				cl := cc.(*ast.CaseClause)
+				hasEOF := false
+				for _, st := range cl.Body {
+					if isEOFAssign(st) {
+						hasEOF = true
+					}
+				}
+				if !hasEOF {
+					continue
+				}
+				eofFound = true
+				for _, e := range cl.List {
+					if readsByte(e) {
+						eofByValue = types.ExprString(e)
+					}
+				}
+				if x.Tag != nil && readsByte(x.Tag) {
+					eofByValue = types.ExprString(x.Tag)
+				}
+				if k >= 2 {
+					eofOK = true
+				}
+			}
+			return false
 		}
-		return false
+		return true
 	})
-	c.Check("R19.4", "reader: end of input is latched only in the branch that excludes the half boundaries", token.NoPos, eofOK, "io.EOF is assigned outside the last branch of the boundary test chain")
-	c.Check("R19.4", "reader: the end of the input is found by position, not by the value of a byte of the input", token.NoPos, eofOK && eofByValue == "",
-		fmt.Sprintf("io.EOF is latched under `%s`, a comparison of a buffer byte with a sentinel value: an input that contains that byte (0x00 is valid UTF-8) ends there silently and the rest is never lexed", eofByValue),
-		"1+2\\x00+3")
+	if !eofFound {
+		eofUndecided = true
+		c.Undecided("R19.4", "reader: end of input is latched only in the branch that excludes the half boundaries", token.NoPos, "no assignment of io.EOF under a test was found in the byte-level next method")
+	} else {
+		c.Check("R19.4", "reader: end of input is latched only in the branch that excludes the half boundaries", token.NoPos, eofOK, "io.EOF is assigned in one of the first two branches of the boundary test chain")
+	}
+	if !eofUndecided {
+		c.Check("R19.4", "reader: the end of the input is found by position, not by the value of a byte of the input", token.NoPos, eofByValue == "",
+			fmt.Sprintf("io.EOF is latched under `%s`, a comparison of a buffer byte with a sentinel value: an input that contains that byte (0x00 is valid UTF-8) ends there silently and the rest is never lexed", eofByValue),
+			"1+2\\x00+3")
+	}
 	// (b2) a buffer half is loaded once: the loads are guarded by state other than the forward pointer, which Retract moves back
 	loaders := map[string]bool{}
 	type readSite struct {
@@ -436,63 +481,102 @@ func checkReaderDiscipline(c *Ctx, p *packages.Package) {
 			"the half is loaded by a single Read and the end marker is put after the bytes it returned: an io.Reader may return fewer bytes than asked for without being at the end (pipe, terminal, socket), and may return the last bytes together with io.EOF; the rest of the input is dropped silently",
 			"any input delivered through testing/iotest.OneByteReader")
 	}
-	if len(readSites) < 2 {
-		c.Lost("R19.4", "the two reads of the source in the emitted reader")
+	if len(readSites) < 1 {
+		c.Lost("R19.4", "the reads of the source in the emitted reader")
 	}
+	// every call of a loader, in next() or in a method of the reader that next() calls: guarded by a condition on a reader field
+	// other than the cursor / buffer / latch (an enclosing if, or an earlier `if <cond> { return }` in the same function), and that
+	// field is reassigned in the function once the load is done
 	nLoads, guardedLoads := 0, 0
-	var stack []ast.Node
-	ast.Inspect(nextB.Body, func(n ast.Node) bool {
-		if n == nil {
-			stack = stack[:len(stack)-1]
-			return true
-		}
-		stack = append(stack, n)
-		call, ok := n.(*ast.CallExpr)
-		if !ok {
-			return true
-		}
-		sel, ok := call.Fun.(*ast.SelectorExpr)
-		if !ok || !loaders[sel.Sel.Name] {
-			return true
-		}
-		nLoads++
-		// a dominating condition on a reader field other than the cursor / the buffer, reassigned once the load succeeded
-		for _, anc := range stack {
-			ifs, ok := anc.(*ast.IfStmt)
-			if !ok || ifs.Body.Pos() > call.Pos() || call.End() > ifs.Body.End() {
-				continue
-			}
-			guardField := ""
-			ast.Inspect(ifs.Cond, func(m ast.Node) bool {
-				if s2, ok := m.(*ast.SelectorExpr); ok && s2.Sel.Name != fwdName && s2.Sel.Name != bufName && s2.Sel.Name != latch {
-					if v, isVar := info.Uses[s2.Sel].(*types.Var); isVar && v.IsField() {
-						guardField = s2.Sel.Name
+	reachFns := []*ast.FuncDecl{nextB}
+	seenFns := map[*ast.FuncDecl]bool{nextB: true}
+	for i := 0; i < len(reachFns) && i < 8; i++ {
+		ast.Inspect(reachFns[i].Body, func(n ast.Node) bool {
+			if call, ok := n.(*ast.CallExpr); ok {
+				if fo, ok := objOf(info, call.Fun).(*types.Func); ok && fo.Pkg() == p.Types && !loaders[fo.Name()] {
+					if hd := declOfFunc(p, fo); hd != nil && hd.Body != nil && hd.Recv != nil && recvName(hd.Recv.List[0].Type) == recv && !seenFns[hd] {
+						seenFns[hd] = true
+						reachFns = append(reachFns, hd)
 					}
 				}
-				return true
-			})
-			if guardField == "" {
-				continue
 			}
-			reassigned := false
-			ast.Inspect(ifs.Body, func(m ast.Node) bool {
-				if as, ok := m.(*ast.AssignStmt); ok && len(as.Lhs) == 1 {
-					if s2, ok := as.Lhs[0].(*ast.SelectorExpr); ok && s2.Sel.Name == guardField {
-						reassigned = true
+			return true
+		})
+	}
+	fieldIn := func(e ast.Expr) string {
+		name := ""
+		ast.Inspect(e, func(m ast.Node) bool {
+			if s2, ok := m.(*ast.SelectorExpr); ok && s2.Sel.Name != fwdName && s2.Sel.Name != bufName && s2.Sel.Name != latch {
+				if v, isVar := info.Uses[s2.Sel].(*types.Var); isVar && v.IsField() {
+					name = s2.Sel.Name
+				}
+			}
+			return true
+		})
+		return name
+	}
+	for _, fdl := range reachFns {
+		var stack []ast.Node
+		ast.Inspect(fdl.Body, func(n ast.Node) bool {
+			if n == nil {
+				stack = stack[:len(stack)-1]
+				return true
+			}
+			stack = append(stack, n)
+			call, ok := n.(*ast.CallExpr)
+			if !ok {
+				return true
+			}
+			sel, ok := call.Fun.(*ast.SelectorExpr)
+			if !ok || !loaders[sel.Sel.Name] {
+				return true
+			}
+			nLoads++
+			var guardFields []string
+			for _, anc := range stack {
+				if ifs, ok := anc.(*ast.IfStmt); ok && ifs.Body.Pos() <= call.Pos() && call.End() <= ifs.Body.End() {
+					if f := fieldIn(ifs.Cond); f != "" {
+						guardFields = append(guardFields, f)
 					}
 				}
-				return true
-			})
-			if reassigned {
-				guardedLoads++
-				break
 			}
-		}
-		return true
-	})
-	c.Check("R19.4", "reader: a buffer half is loaded once (each load is guarded by state that a retraction does not undo)", token.NoPos, nLoads >= 2 && guardedLoads == nLoads,
+			for _, st := range fdl.Body.List {
+				if st.End() > call.Pos() {
+					break
+				}
+				if ifs, ok := st.(*ast.IfStmt); ok && ifs.Else == nil && len(ifs.Body.List) >= 1 {
+					if _, isRet := ifs.Body.List[len(ifs.Body.List)-1].(*ast.ReturnStmt); isRet {
+						if f := fieldIn(ifs.Cond); f != "" {
+							guardFields = append(guardFields, f)
+						}
+					}
+				}
+			}
+			for _, gf := range guardFields {
+				reassigned := false
+				ast.Inspect(fdl.Body, func(m ast.Node) bool {
+					if as, ok := m.(*ast.AssignStmt); ok && len(as.Lhs) == 1 {
+						if s2, ok := as.Lhs[0].(*ast.SelectorExpr); ok && s2.Sel.Name == gf {
+							reassigned = true
+						}
+					}
+					return true
+				})
+				if reassigned {
+					guardedLoads++
+					break
+				}
+			}
+			return true
+		})
+	}
+	if nLoads == 0 {
+		c.Undecided("R19.4", "reader: a buffer half is loaded once (each load is guarded by state that a retraction does not undo)", token.NoPos, "no call of a function that reads the source was found from next()")
+	} else {
+		c.Check("R19.4", "reader: a buffer half is loaded once (each load is guarded by state that a retraction does not undo)", token.NoPos, guardedLoads == nLoads,
 		fmt.Sprintf("%d of %d loads in next() are guarded only by the position of the forward pointer: when forward arrives at a half boundary again after Retract, the next chunk overwrites the half that was just loaded and a buffer-half of input disappears", nLoads-guardedLoads, nLoads),
 		"an input longer than the buffer half with a token that begins on the last byte of a half")
+	}
 	// (b3) ring invariant: when forward arrives at len(buff) it is set back to 0 on every path (Lexeme and Retract walk the ring modulo len(buff))
 	wrapFound, wrapOK := false, false
 	ast.Inspect(nextB.Body, func(n ast.Node) bool {
